@@ -15,8 +15,9 @@ VARIABLE cfg          \* the configuration in force (a member of Configs; field 
 
 NoOrder == [type |-> "payload", ids |-> << >>, measure |-> "", marginal |-> "", eid |-> 0,
             iid |-> 0, dir |-> "descending", top |-> << >>, bottom |-> << >>]
+NoSmoother == [has |-> FALSE, win |-> NA]
 DefaultDC == [vins |-> << >>, hasx |-> FALSE, xins |-> << >>, hide |-> {},
-              prune |-> FALSE, order |-> NoOrder]
+              prune |-> FALSE, order |-> NoOrder, smoother |-> NoSmoother]
 DefaultConfig == [idx |-> 1, rows |-> DefaultDC, cols |-> DefaultDC]
 
 Cfg  == cfg
